@@ -148,8 +148,8 @@ func Gen(seed int64, n int, tier string, w *bufio.Writer) {
 		genOps(r, w, false)
 	}
 	if tier == "thorough" {
-		// bounded exhaustive: every stimulus sequence of length <= 4 over a 9-letter alphabet, 2 configurations
-		alphabet := []string{"adv", "resp 0 14 1 ok", "resp 0 20 1 ok", "resp 0 31 0 ok", "cancelapi", "cancelctx", "pause", "unpause", "adv hp"}
+		// bounded exhaustive: every stimulus sequence of length <= 4 over an 8-letter alphabet, 2 configurations
+		alphabet := []string{"adv", "resp 0 14 1 ok", "resp 0 20 1 ok", "resp 0 31 0 ok", "cancelapi", "cancelctx", "pause", "unpause"}
 		cfgs := []string{"new 2 1 1", "new 2 0 2"}
 		id := 0
 		var rec func(prefix []string, depth int)
